@@ -207,8 +207,8 @@ mut('C04', 'time-vs-literal', 'wave_sim.py', '                or next_t < curren
 mut('C04', 'polarity-index-swapped', 'wave_sim.py', '            c = cbuf[c_mem + c_cur, sim] + delays[c_idx, c_cur & 1, z_val]\n            next_t', '            c = cbuf[c_mem + c_cur, sim] + delays[c_idx, z_val, c_cur & 1]\n            next_t', 'C04.provenance')
 mut('C04', 'thresh-as-time', 'wave_sim.py', '            thresh = delays[d_idx, d_cur & 1, z_val]\n', '            thresh = cbuf[d_mem + d_cur, sim]\n', ['C04.dim', 'C04.provenance'])
 mut('C04', 'min-drops-operand', 'wave_sim.py', '            d = cbuf[d_mem + d_cur, sim] + delays[d_idx, d_cur & 1, z_val]\n\n        current_t = min(a, b, c, d)', '            d = cbuf[d_mem + d_cur, sim] + delays[d_idx, d_cur & 1, z_val]\n\n        current_t = min(a, b, c)', 'C04.provenance')
-mut('C04', 'eat-includes-tmin', 'wave_sim.py', '        if t <= TMIN: continue\n        if s_sqrt2 > 0:\n            acc += m * (1 + math.erf((t - time) / s_sqrt2))\n        eat = min(eat, t)\n        lst = max(lst, t)\n        tog += 1\n    if s_sqrt2 > 0:\n        if m < 0:\n            acc += 1\n        if acc >= 0.99:\n            val = 1\n        elif acc > 0.01:\n            seed = (seed << 4) + (vector << 20) + c_loc',
-    '        eat = min(eat, t)\n        if t <= TMIN: continue\n        if s_sqrt2 > 0:\n            acc += m * (1 + math.erf((t - time) / s_sqrt2))\n        lst = max(lst, t)\n        tog += 1\n    if s_sqrt2 > 0:\n        if m < 0:\n            acc += 1\n        if acc >= 0.99:\n            val = 1\n        elif acc > 0.01:\n            seed = (seed << 4) + (vector << 20) + c_loc', 'C04.capture')
+mut('C04', 'eat-includes-tmin', 'wave_sim.py', '        if t <= TMIN: continue\n        if s_sqrt2 > 0:\n            acc += m * (1 + math.erf((t - time) / s_sqrt2))\n        eat = min(eat, t)\n        lst = max(lst, t)\n        tog += 1\n    if s_sqrt2 > 0:\n        if m < 0:\n            acc += 1\n        if acc >= 0.99:\n            val = 1\n        elif acc > 0.01:\n            seed = (seed << 4) + (vector << 20) + int(c_loc)',
+    '        eat = min(eat, t)\n        if t <= TMIN: continue\n        if s_sqrt2 > 0:\n            acc += m * (1 + math.erf((t - time) / s_sqrt2))\n        lst = max(lst, t)\n        tog += 1\n    if s_sqrt2 > 0:\n        if m < 0:\n            acc += 1\n        if acc >= 0.99:\n            val = 1\n        elif acc > 0.01:\n            seed = (seed << 4) + (vector << 20) + int(c_loc)', 'C04.capture')
 mut('C04', 'time-scaled', 'wave_sim.py', '        current_t = min(a, b, c, d)\n\n    # generate', '        current_t = min(a, b, c, d) * 1\n\n    # generate', ['C04.dim', 'C04.provenance'])
 neutral('C04', 'n-add-commuted', 'wave_sim.py', '    a = cbuf[a_mem + a_cur, sim] + delays[a_idx, 0, z_val]', '    a = delays[a_idx, 0, z_val] + cbuf[a_mem + a_cur, sim]')
 
@@ -425,6 +425,9 @@ neutral('C03', 'n-cpu-stimulus-loop-form', 'wave_sim.py', """        sins = self
                 for k in range(3):
                     self.c[c_loc + k, lane] = wave[k]
 """)
+mut('C06', 'capture-seed-raw-cloc', 'wave_sim.py', 'seed = (seed << 4) + (vector << 20) + int(c_loc)', 'seed = (seed << 4) + (vector << 20) + c_loc', 'C06.capture')   # F19
+mut('C06', 'capture-seed-raw-via-temp', 'wave_sim.py', 'seed = (seed << 4) + (vector << 20) + int(c_loc)', 'base = c_loc + (vector << 20)\n            seed = (seed << 4) + base', 'C06.capture')
+neutral('C06', 'n-capture-seed-all-int', 'wave_sim.py', 'seed = (seed << 4) + (vector << 20) + int(c_loc)', 'seed = (int(seed) << 4) + (int(vector) << 20) + int(c_loc)')
 mut('C10', 'substitute-prunes-early', 'circuit.py', "                if l.driver in node_map:\n                    unused.append(node_map[l.driver])\n                continue", "                if l.driver in node_map:\n                    self.remove_dangling_nodes(node_map[l.driver])\n                continue", 'C10.function')   # F16
 
 mut('C11', 'onebit-bus-bare-name', 'verilog.py', "                    if s not in c.forks and s in sig_decls and len(sig_decls[s].names) == 1:\n                        s = sig_decls[s].names[0]  # a 1-bit bus read by its bare name\n", "", 'C11.netlist')   # F17
